@@ -106,6 +106,12 @@ impl Out {
         writeln!(self.cases, "{}", case).unwrap();
         writeln!(self.imp, "{}", imp).unwrap();
         self.n_cases += 1;
+        // keep the files current: if the real code kills the process (abort, stack overflow) the last case is on disk
+        if self.n_cases % 16 == 0 {
+            let _ = self.cases.flush();
+            let _ = self.imp.flush();
+            let _ = self.oracle.flush();
+        }
     }
     /// a property-oracle failure on the real code (independent of the model); `case_no` is 1-based
     pub fn oracle_fail(&mut self, kind: &str, what: &str) {
